@@ -1139,43 +1139,29 @@ func c01R7(c *Ctx) {
 			c.Undec("C01.R7", "ni.Allocate result variable", p.Pos(cs.Call), fn.Key(), "", "channel result not bound to a variable")
 			continue
 		}
-		// path from this call back to itself (next iteration of the inner loop) must take the ch == nil edge
+		// with the returned channel non-nil — followed through copies into other channel variables
+		// (a helper's result handed to the caller's variable) — the call is not reached again
 		q := NewPathQuery(p, fn, innermostBody(fn, cs.Call))
-		e := NewFactEngine(p, fn)
-		nilAtom := "eq(" + objID(chVar) + ",nil)"
-		sawGuard := false
-		q.Prune = func(cond ast.Expr, takeTrue bool) bool {
-			f := e.boolForm(cond, e.fnScope())
-			if f.k == fAtom && f.atom == nilAtom { // ch == nil
-				sawGuard = true
-				return !takeTrue // prune the non-nil edge... (ch==nil false) means non-nil: we search non-nil paths, so prune 'true'
+		var chans []types.Object
+		seenC := map[types.Object]bool{}
+		ast.Inspect(fn.Decl.Body, func(k ast.Node) bool {
+			if id, ok := k.(*ast.Ident); ok {
+				if v, ok := info.ObjectOf(id).(*types.Var); ok && !v.IsField() && !seenC[v] && len(chans) < 12 && types.Identical(v.Type(), chVar.Type()) {
+					seenC[v] = true
+					chans = append(chans, v)
+				}
 			}
-			if f.k == fNot && f.sub[0].k == fAtom && f.sub[0].atom == nilAtom { // ch != nil
-				sawGuard = true
-				return false
-			}
-			return false
-		}
-		// Search: after the call, following only edges consistent with ch != nil, can we reach the call again
-		// without ch being re-declared (a new request)?
-		q.Prune = func(cond ast.Expr, takeTrue bool) bool {
-			f := e.boolForm(cond, e.fnScope())
-			if f.k == fAtom && f.atom == nilAtom {
-				sawGuard = true
-				return takeTrue // ch == nil edge is infeasible when ch != nil
-			}
-			if f.k == fNot && f.sub[0].k == fAtom && f.sub[0].atom == nilAtom {
-				sawGuard = true
-				return !takeTrue
-			}
-			return false
-		}
+			return true
+		})
+		q.TrackNils = chans
+		q.StartNil = map[types.Object]int{chVar: nilNo}
+		sawGuard := true
 		redecl := func(n ast.Node) bool {
 			if ds, ok := n.(*ast.ValueSpec); ok {
 				found := false
 				ast.Inspect(ds, func(m ast.Node) bool {
-					if id, ok := m.(*ast.Ident); ok && info.Defs[id] == chVar {
-						found = true
+					if id, ok := m.(*ast.Ident); ok && info.Defs[id] != nil && seenC[info.Defs[id]] {
+						found = true // a channel variable of the request is declared anew: the next request
 					}
 					return true
 				})
